@@ -7,7 +7,7 @@ import vlib
 from vlib import Violation, qc, coq_list
 
 ID = "C17"
-GEN_UNITS = ["Regs"]
+GEN_UNITS = ["Regs", "BSpline"]
 PROPS_FILE = "Props/C17.v"
 PROPS_MOD = "Props.C17"
 COQ_TARGETS = ["Props/C17.vo"]
@@ -71,6 +71,17 @@ def make_cases(ctx, n):
             a, b = rng.sample(PAIR_ORDER, 2)
             a, b = sorted([a, b], key=PAIR_ORDER.index)
             cases.append({"kind": "lame", "args": {a: truth[a], b: truth[b]}, "pair": f"{a}_{b}", "lam": lam, "mu": mu})
+        elif r == 9 and (i // 10) % 2 == 0:
+            # bending_loss(mode='bspline'): the field is read as cubic B-spline coefficients
+            D = 2 if (i // 20) % 3 else 3
+            size = [rng.choice([4, 5, 6] if D == 2 else [4, 5]) for _ in range(D)]
+            npts = 1
+            for s_ in size:
+                npts *= s_
+            cases.append({"kind": "bsloss", "fn": "bending", "mode": "bspline", "reduction": ["none", "mean", "sum"][(i // 20) % 3],
+                          "stride": [rng.choice([1, 2]) if D == 2 else rng.choice([1, 1, 2]) for _ in range(D)],
+                          "u": {"size": size, "data": [[dy(rng) for _ in range(npts)] for _ in range(D)]},
+                          "spacing": [rng.choice([0.5, 1.0, 2.0]) for _ in range(D)]})
         else:
             D = rng.choice([2, 3])
             cases.append({"kind": "ic", "size": [rng.choice([5, 6, 9, 12]) for _ in range(D)],
@@ -105,6 +116,14 @@ def model_term(c, r):
         scale = 1 + max(abs(v) for v in r["val"])
         tol = vlib.qlit((1e-8 if sp is not None else 2e-6) * scale)
         return f"vclose {tol} (reg_loss (K:=QcF) {RED[c['reduction']]} {sh} (fun i => {pt})) {coq_list([qc(v) for v in r['val']])}"
+    if k == "bsloss":
+        sh, st_ = zlist(c["u"]["size"]), zlist(c["stride"])
+        sp_t = coq_list([qc(v) for v in c["spacing"]])
+        D = len(c["u"]["size"])
+        scale = 1 + max(abs(v) for v in r["val"])
+        tol = vlib.qlit(1e-8 * scale)
+        return (f"vclose {tol} (reg_loss (K:=QcF) {RED[c['reduction']]} (bs_out_shape {sh} {st_}) "
+                f"(fun p => bs_bending_pt (K:=QcF) (@gen_w QcF) {D} {st_} {sp_t} {field_term(c)} p)) {coq_list([qc(v) for v in r['val']])}")
     if k == "lame":
         a, b = list(c["args"])
         vals = " ".join(qc(c["args"][n]) for n in (a, b))
@@ -126,7 +145,7 @@ def model_term(c, r):
 
 
 HEADER = """From Coq Require Import ZArith QArith Qcanon List String Bool.
-From DV Require Import Base.Field Base.LinAlg Base.QcInst Model.Losses Model.LossesR Model.RegStencil Model.Regularisers Gen.Regs.
+From DV Require Import Base.Field Base.LinAlg Base.QcInst Model.Losses Model.LossesR Model.RegStencil Model.Regularisers Gen.Regs Gen.BSpline.
 Import ListNotations.
 Definition t6 : Q := 1 # 100000000.
 Definition t4 : Q := 1 # 10000.
@@ -191,7 +210,9 @@ def correspondence(ctx):
                          "translator": tab, "impl": real})
     dist = {}
     for c, r in zip(cases, res):
-        if c["kind"] == "loss":
+        if c["kind"] == "bsloss":
+            tag = f"bending:bspline:D{len(c['u']['size'])}:{c['reduction']}:stride{'x'.join(map(str, c['stride']))}"
+        elif c["kind"] == "loss":
             tag = f"{c['fn']}:{c['mode']}:D{len(c['u']['size'])}:{c['reduction']}" + (":default-spacing" if c["spacing"] is None else "")
         elif c["kind"] == "lame":
             tag = "lame:" + c["pair"]
